@@ -52,6 +52,19 @@ def client_validation(extra_cov):
 
     def post(oc, traces, summaries):
         proj = [p for p in (smtpclientd.project(t) for t in traces) if p]
+        # (the model enumerates every choice of the peer for the commands a flush sends at once: long unflushed runs are left to
+        #  the observer; and at most 15 000 executions, evenly picked, go through the model - TLC's time is linear in that)
+        def longest_run(p):
+            best = cur = 0
+            for c in p['ev']:
+                cur = 0 if c['flushing'] else cur + 1
+                best = max(best, cur)
+            return best
+        proj = [p for p in proj if longest_run(p) <= 5]
+        nall = len(proj)
+        if len(proj) > 15000:
+            step = len(proj) / 15000.0
+            proj = [proj[int(k * step)] for k in range(15000)]
         if not proj:
             return
         full = {t['id']: t for t in traces}
@@ -80,7 +93,7 @@ def client_validation(extra_cov):
         if can_ok and not drift and not oc.violations:
             raise MachineryError('binding canary accepted by Trace_SmtpClientD: a reply object left empty by a flushing call')
         extra_cov['design_model_validation'] = {
-            'module': 'Trace_SmtpClientD (EXTENDS SmtpClient)', 'traces': len(proj), 'outside_the_model': len(traces) - len(proj),
+            'module': 'Trace_SmtpClientD (EXTENDS SmtpClient)', 'traces': len(proj), 'outside_the_model_or_not_picked': len(traces) - len(proj), 'inside_the_model': nall,
             'accepted': sum(1 for v in ver.values() if v[0] == 'OK'), 'drift': drift, 'tlc_states': r['states'], 'wall_s': r['wall_s'],
             'canary_rejected': bool(can) and not can_ok, 'drift_samples': samples}
     return post
